@@ -78,6 +78,8 @@ pub fn output_decls() -> Vec<(&'static str, &'static str)> {
         ("[cur] (a symlink to a directory)", "[{paths: [cur]}]"),
         ("[cfg.txt] (a symlink to a file)", "[{paths: [cfg.txt]}]"),
         ("none", "[]"),
+        ("[out, out/sub]+[o] (nested paths in one resource)", "[{paths: [out, out/sub], extensions: [o]}]"),
+        ("[out]+[o] and [out/sub]+[o] (nested paths in two resources)", "[{paths: [out], extensions: [o]}, {paths: [out/sub], extensions: [o]}]"),
     ]
 }
 pub fn clean_modes() -> Vec<Vec<&'static str>> {
@@ -235,6 +237,7 @@ fn c12_expected_deleted(before: &BTreeMap<PathBuf, Node>, decl: usize, mode: &[&
             7 => {
                 del.insert(PathBuf::from("cfg.txt"));
             }
+            9 | 10 => filtered("out", &["o"], &mut del, &mut dontcare),
             _ => {}
         }
     }
@@ -420,6 +423,7 @@ pub fn check_c12(rep: &mut Report) {
 
 #[derive(Clone, Copy, Debug, PartialEq, Eq, Hash, PartialOrd, Ord)]
 pub enum Inv {
+    // (t is the target `t-1` of project c; its sibling `t_1` differs only in '-' / '_')
     RootQualified,      // -p R c::t
     RootUse,            // -p R use
     OwnDirBare,         // -p R/c t
@@ -432,6 +436,8 @@ pub enum Inv {
     RootAbsoluteDotDot, // -p /abs/R/c/../../R
     OwnDirAbsoluteLink, // -p /abs/Rlink/c
     Other,              // other
+    Sibling,            // c::t_1 (same project as t, name differs only in '-' / '_')
+    CleanSibling,       // --clean c::t_1
     Bad,                // bad (fails)
     CleanOther,         // --clean other
     CleanUse,           // --clean use (cleans c::t too)
@@ -443,7 +449,7 @@ pub enum Inv {
 pub fn inv_alphabet() -> Vec<Inv> {
     use Inv::*;
     // (rewriting t's input with the same content is left out: the statement allows either decision then)
-    vec![RootQualified, RootUse, OwnDirBare, OwnDirQualified, RootRelative, RootDotSlash, RootSymlinked, OwnDirSymlinked, RootAbsolute, RootAbsoluteDotDot, OwnDirAbsoluteLink, Other, Bad, CleanOther, CleanUse, EditOtherInput, EditTInput]
+    vec![RootQualified, RootUse, OwnDirBare, OwnDirQualified, RootRelative, RootDotSlash, RootSymlinked, OwnDirSymlinked, RootAbsolute, RootAbsoluteDotDot, OwnDirAbsoluteLink, Other, Sibling, CleanSibling, Bad, CleanOther, CleanUse, EditOtherInput, EditTInput]
 }
 fn reaches_t(i: Inv) -> bool {
     use Inv::*;
@@ -457,15 +463,16 @@ fn build_c18_tree(base: &Path, named_root: bool, trace: &Path) {
     write(
         &r.join("zinoma.yml"),
         format!(
-            "{name}imports:\n  c: c\ntargets:\n  use:\n    build: 'echo use >> {tr}'\n    input: ['c::t.output']\n    output: [{{paths: [use.out]}}]\n  other:\n    build: 'echo other >> {tr}'\n    input: [{{paths: [other.txt]}}]\n  bad:\n    build: 'echo bad >> {tr}; exit 1'\n    input: [{{paths: [other.txt]}}]\n",
+            "{name}imports:\n  c: c\ntargets:\n  use:\n    build: 'echo use >> {tr}'\n    input: ['c::t-1.output']\n    output: [{{paths: [use.out]}}]\n  other:\n    build: 'echo other >> {tr}'\n    input: [{{paths: [other.txt]}}]\n  bad:\n    build: 'echo bad >> {tr}; exit 1'\n    input: [{{paths: [other.txt]}}]\n",
             name = name,
             tr = tr
         )
         .as_bytes(),
     );
     write(&r.join("other.txt"), b"other v0");
-    write(&r.join("c/zinoma.yml"), format!("name: c\ntargets:\n  t:\n    build: 'cat src.txt > out.txt; echo t >> {tr}'\n    input: [{{paths: [src.txt]}}]\n    output: [{{paths: [out.txt]}}]\n", tr = tr).as_bytes());
+    write(&r.join("c/zinoma.yml"), format!("name: c\ntargets:\n  t-1:\n    build: 'cat src.txt > out.txt; echo t >> {tr}'\n    input: [{{paths: [src.txt]}}]\n    output: [{{paths: [out.txt]}}]\n  t_1:\n    build: 'echo sibling >> {tr}'\n    input: [{{paths: [sib.txt]}}]\n", tr = tr).as_bytes());
     write(&r.join("c/src.txt"), b"src v0");
+    write(&r.join("c/sib.txt"), b"sibling input");
     std::os::unix::fs::symlink("R", base.join("Rlink")).unwrap();
 }
 
@@ -474,18 +481,20 @@ fn perform(base: &Path, inv: Inv, seq: usize) -> Option<RunOut> {
     let r = base.join("R");
     let t = Duration::from_secs(20);
     Some(match inv {
-        RootQualified => run_zinoma(base, &["-p", "R", "c::t"], t),
+        RootQualified => run_zinoma(base, &["-p", "R", "c::t-1"], t),
         RootUse => run_zinoma(base, &["-p", "R", "use"], t),
-        OwnDirBare => run_zinoma(base, &["-p", "R/c", "t"], t),
-        OwnDirQualified => run_zinoma(base, &["-p", "R/c", "c::t"], t),
-        RootRelative => run_zinoma(&r, &["c::t"], t),
-        RootDotSlash => run_zinoma(base, &["-p", "./R/../R", "c::t"], t),
-        RootSymlinked => run_zinoma(base, &["-p", "Rlink", "c::t"], t),
-        OwnDirSymlinked => run_zinoma(base, &["-p", "Rlink/c", "t"], t),
-        RootAbsolute => run_zinoma(base, &["-p", &lossy(&base.join("R")), "c::t"], t),
-        RootAbsoluteDotDot => run_zinoma(base, &["-p", &lossy(&base.join("R/c/../../R")), "c::t"], t),
-        OwnDirAbsoluteLink => run_zinoma(base, &["-p", &lossy(&base.join("Rlink/c")), "t"], t),
+        OwnDirBare => run_zinoma(base, &["-p", "R/c", "t-1"], t),
+        OwnDirQualified => run_zinoma(base, &["-p", "R/c", "c::t-1"], t),
+        RootRelative => run_zinoma(&r, &["c::t-1"], t),
+        RootDotSlash => run_zinoma(base, &["-p", "./R/../R", "c::t-1"], t),
+        RootSymlinked => run_zinoma(base, &["-p", "Rlink", "c::t-1"], t),
+        OwnDirSymlinked => run_zinoma(base, &["-p", "Rlink/c", "t-1"], t),
+        RootAbsolute => run_zinoma(base, &["-p", &lossy(&base.join("R")), "c::t-1"], t),
+        RootAbsoluteDotDot => run_zinoma(base, &["-p", &lossy(&base.join("R/c/../../R")), "c::t-1"], t),
+        OwnDirAbsoluteLink => run_zinoma(base, &["-p", &lossy(&base.join("Rlink/c")), "t-1"], t),
         Other => run_zinoma(base, &["-p", "R", "other"], t),
+        Sibling => run_zinoma(base, &["-p", "R", "c::t_1"], t),
+        CleanSibling => run_zinoma(base, &["-p", "R", "--clean", "c::t_1"], t),
         Bad => run_zinoma(base, &["-p", "R", "bad"], t),
         CleanOther => run_zinoma(base, &["-p", "R", "--clean", "other"], t),
         CleanUse => run_zinoma(base, &["-p", "R", "--clean", "use"], t),
@@ -517,7 +526,7 @@ pub fn check_c18(rep: &mut Report) {
         for &a in &alpha {
             seqs.push(vec![a, e]);
             for &b in &alpha {
-                if !thorough && !(reaches_t(a) && reaches_t(b)) && !(matches!(a, Inv::EditTInput | Inv::CleanUse | Inv::Bad | Inv::CleanOther) && reaches_t(b)) && !(reaches_t(a) && matches!(b, Inv::EditTInput | Inv::CleanUse | Inv::Bad | Inv::CleanOther | Inv::Other | Inv::EditOtherInput)) {
+                if !thorough && !(reaches_t(a) && reaches_t(b)) && !(matches!(a, Inv::EditTInput | Inv::CleanUse | Inv::Bad | Inv::CleanOther) && reaches_t(b)) && !(reaches_t(a) && matches!(b, Inv::EditTInput | Inv::CleanUse | Inv::Bad | Inv::CleanOther | Inv::Other | Inv::EditOtherInput | Inv::Sibling | Inv::CleanSibling)) {
                     continue; // quick: both earlier steps are about t, or one is and the other is an edit/clean/failure
                 }
                 seqs.push(vec![a, b, e]);
